@@ -30,6 +30,12 @@ def main():
         resource.setrlimit(resource.RLIMIT_AS, (4 << 30, 4 << 30))
     except Exception:
         pass
+    try:
+        # as after `from scapy.all import *`: application-layer bindings are loaded, so a TCP payload to port 53 is dissected as a DNS
+        # layer (not Raw) -- it is payload all the same
+        import scapy.layers.dns  # noqa: F401
+    except Exception:
+        pass
     mod = importlib.import_module("harness.props." + prop.lower())
     impl = mod.impl_init()
     signal.signal(signal.SIGALRM, _alarm)
